@@ -8,7 +8,7 @@ import warnings
 
 import numpy as np
 
-from implcommon import read_payload, emit, hx, unhx, guarded
+from implcommon import read_payload, emit, hx, unhx, guarded, audit
 from C01 import build_spectrum, flat, out_shape
 
 warnings.simplefilter("ignore")
@@ -16,6 +16,13 @@ warnings.simplefilter("ignore")
 
 def run_peak(c):
     s, lead = build_spectrum(c)
+    if "time" in s.dataset.dims:
+        # observation times are not whole seconds (the constructors round them; a netCDF file does not): the results
+        # stay attached to exactly these stamps
+        nt_ = s.dataset.sizes["time"]
+        stamps = np.datetime64("2021-06-01T00:00:00", "ns") + (np.arange(nt_) * 3600_000_000_000 + 800_000_000
+                                                                   + np.arange(nt_) * 137_000_000).astype("timedelta64[ns]")
+        s.dataset = s.dataset.assign_coords(time=stamps)
     res = {"bands": []}
     for (lo, hi) in c["bands"]:
         lo = unhx(lo)
@@ -27,6 +34,7 @@ def run_peak(c):
             if isinstance(r, dict) and "error" in r:
                 b[name] = r
             else:
+                audit("peak " + name, r, s, call="peak %s over the band [%r, %r)" % (name, lo, hi))
                 b[name] = flat(r.values)
                 b[name + "_shape"] = out_shape(r.values)
 
@@ -46,6 +54,15 @@ def run_peak(c):
     if isinstance(r, dict) and "error" in r:
         res["wavenumber"] = r
     else:
+        audit("peak_wavenumber", r, s, call="peak_wavenumber")
+        for nm_ in ("peak_wave_speed",):
+            q = guarded(lambda: getattr(s, nm_)())
+            if not (isinstance(q, dict) and "error" in q):
+                audit(nm_, q, s, call=nm_ + "()")
+                if tuple(q.shape) != tuple(r.shape):
+                    from implcommon import LABEL_PROBLEMS
+                    LABEL_PROBLEMS.append({"what": nm_, "problem": "shape %r for %r spectra (points were dropped by label "
+                                           "alignment)" % (tuple(q.shape), tuple(r.shape)), "call": nm_ + "()"})
         res["wavenumber"] = flat(r.values)
         res["wavenumber_shape"] = out_shape(r.values)
     res["depth"] = flat(s.depth.values)
